@@ -114,6 +114,10 @@ class TransformedHistogramMixin(abc.ABC):
         **kwargs,
     ):
         if not transformed:
+            if kwargs.get("columns"):
+                # One array per coordinate: put the points in rows before transforming them
+                values = np.asarray(values).T
+                kwargs["columns"] = False
             values = self.transform(values)
         super().fill_n(values=values, weights=weights, dropna=dropna, **kwargs)  # type: ignore
 
